@@ -275,4 +275,7 @@ def harnesses():
         Harness("contexts_disjoint", h_contexts_disjoint, units=[(F_PY, "Function.unique_name_used")],
                 replay=replay_ctx_collision),
         Harness("run_coro.release", h_run_coro, units=[(F_PY, "Function.run_coro")]),
+        mutator_closure_harness("C13", "unique-maps", {"unique_name2task": {"cls", "Function"},
+                                                       "unique_task2name": {"cls", "Function"}},
+                                {"Function.task_unique_factory.task_unique", "Function.run_coro"}),
     ]
